@@ -137,5 +137,5 @@ def functions_in_paths(paths):
 def batch_of_one(term, var="v"):
     """The vector call form of a rank-polymorphic function: the batched computation applied to a
     batch of one and squeezed (what auto_unsqueeze_args implements)."""
-    t = T.rename_syms(term, {var: T.app("unsq", T.sym(var), -2)})
+    t = T.rename_syms(term, {var: T.app("unsq", T.sym(var), -2, 2)})
     return T.app("sq", t, -1)
